@@ -246,7 +246,7 @@ pub fn check_case(c: &Case) -> Check {
             if *dot {
                 args.push("--dot".into());
             }
-            let path = scratch.stale("graph.out");
+            let path = scratch.stale(&cli::Scratch::awkward("graph.out"));
             if *to_file {
                 args.push("-o".into());
                 args.push(path.to_string_lossy().into_owned());
@@ -262,7 +262,7 @@ pub fn check_case(c: &Case) -> Check {
             for run in 0..3 {
                 if *to_file {
                     // an earlier, longer output is already there
-                    let _ = scratch.stale("graph.out");
+                    let _ = scratch.stale(&cli::Scratch::awkward("graph.out"));
                 }
                 let out = run_tool(&args);
                 if out.timed_out {
@@ -321,7 +321,7 @@ pub fn check_case(c: &Case) -> Check {
         }
         Case::Convert { input, undirected, dot } => {
             let csv: String = input.iter().map(|(a, b)| format!("{},{}\n", a, b)).collect();
-            let p = scratch.file("in.csv", csv.as_bytes());
+            let p = scratch.file(&cli::Scratch::awkward("in.csv"), csv.as_bytes());
             let mut args = vec!["--convert".to_string(), p.to_string_lossy().into_owned()];
             if *undirected {
                 args.push("-u".into());
@@ -346,7 +346,7 @@ pub fn check_case(c: &Case) -> Check {
             undirected,
         } => {
             let csv: String = input.iter().map(|(a, b)| format!("{},{}\n", a, b)).collect();
-            let p = scratch.file("in.csv", csv.as_bytes());
+            let p = scratch.file(&cli::Scratch::awkward("in.csv"), csv.as_bytes());
             let mut args = vec![
                 "--convert".to_string(),
                 p.to_string_lossy().into_owned(),
